@@ -527,3 +527,21 @@ def m_ref_partial_ord(I, st, fr, args, path, gargs, t):
 def m_provided_partial_ord(I, st, fr, args, path, gargs, t):
     meth = path.rsplit('::', 1)[1]
     return _cmp_via_partial_cmp(I, st, fr, args, gargs[0], gargs[1], meth, t, 0)
+
+
+@model(r'core::num::<impl ' + INT + r'>::wrapping_(rem|div)')
+def m_wrapping_divrem(I, st, fr, args, path, gargs, t):
+    m = re.match(r'core::num::<impl ' + INT + r'>::wrapping_(rem|div)', path)
+    ty, op = m.group(1), m.group(2)
+    a, b = args
+    if 0 in st.sign(b.p):
+        idx = st.decide(b.p, [ZERO, NONZERO])
+        if idx == 0:
+            raise PanicExc('DivisionByZero', {'fn': path})
+    if op == 'rem':
+        return I.divrem(st, 'Rem', a, b, ty)       # MIN % -1 wraps to 0, which is the mathematical remainder
+    q = I.divrem(st, 'Div', a, b, ty)
+    rlo, rhi = INT_RANGES[ty]
+    if st.in_range(q.p, rlo, rhi) is True:
+        return q
+    return st.fresh(ty, tag='wrapdiv')
